@@ -19,7 +19,7 @@ RULE = (
     "x checkpoint cadence x resume from a generated checkpoint. The user likelihood is wrapped by a recorder. Oracle at EVERY "
     "call: the argument's log_prior is not None, has one value per row, and equals pi recomputed (float64 reference) on the "
     "argument's own coordinates; after the run Aspire.n_likelihood_evaluations == sum of rows over all recorded calls (for a "
-    "resumed run: the calls of that run). Non-trivial = >=3 distinct aspire call sites reached the likelihood in the run "
+    "resumed run: the calls of that run; for a run in which the likelihood raises at a generated call: including that call). Non-trivial = >=3 distinct aspire call sites reached the likelihood in the run "
     "(initial draw, kernel target, post-mutation re-evaluation, enlargement, evidence samples...)."
 )
 ASSUMPTIONS = [
@@ -29,8 +29,19 @@ ASSUMPTIONS = [
 ]
 
 
+from hypothesis import strategies as st
+
+
+@st.composite
+def _case(draw):
+    c = draw(rc.run_case())
+    # in a third of the cases the user's likelihood raises at a generated call: points it was asked about still count
+    c["fault_call"] = draw(st.one_of(st.none(), st.none(), st.integers(0, 40)))
+    return c
+
+
 def cases(tier):
-    return rc.run_case()
+    return _case()
 
 
 def _site():
@@ -100,4 +111,17 @@ def run_case(case, ctx):
             _check_calls(P2, ctx, case, "resumed:")
         resumed = True
         labels.append("resumed")
+    if case.get("fault_call") is not None and len(P.calls) > 1:
+        k = case["fault_call"] % len(P.calls)
+        Pf = rc.Problem(case, fault_at=k)
+        try:
+            Pf.run(None)
+            ctx.fail("fault:not-raised", f"harness: likelihood call {k} never happened in the repeated run", case)
+        except rc.InjectedFault:
+            asked = sum(c["n"] for c in Pf.calls)
+            got = Pf.aspire.n_likelihood_evaluations
+            if got != asked:
+                ctx.fail("fault:count", f"after the user's likelihood raised at call {k}, n_likelihood_evaluations={got} but the likelihood had been "
+                                        f"asked for {asked} points (including the call that raised)", case, reported=got, actual=asked)
+        labels.append("fault-injected")
     return {"nontrivial": len(sites) >= 3, "labels": labels}
